@@ -303,6 +303,6 @@ theorem hardFork_good {s s' : St} {ra lv : Nat} (e : hardFork s ra lv = .ok s') 
             unfold forkMid resetClock
             exact fork_mid hi hg rfl rfl rfl rfl rfl rfl hk1 hst rfl hle c1 c2 c3 c4
           obtain ⟨p2, s2⟩ := seqOnHardFork_fs _ ra (hmid.1.pre hmidc)
-          exact ⟨hc', hmid.1.same s2, hmid.2.trans s2.evolves⟩
+          exact ⟨hc', hmid.1.same s2, hmid.2.trans s2.evolves, s2.p⟩
 
 end DymVerif.Core
